@@ -100,7 +100,7 @@ fn member_names(v: &Value, out: &mut Vec<String>) {
 }
 
 fn plain(base: Base, fmt: Fmt) -> Case {
-    Case { base, faults: vec![], wire: vec![], fmt, session: None, resolver: Resolver::Directory, kb_enc: KbEnc::Absent, extra: vec![], expand: None, hold_s: 0, escapes: false, extra_raw: None }
+    Case { base, faults: vec![], wire: vec![], fmt, session: None, resolver: Resolver::Directory, kb_enc: KbEnc::Absent, extra: vec![], expand: None, hold_s: 0, escapes: false, extra_raw: None, member_order: None }
 }
 
 fn rand_char(rng: &mut Rng) -> char {
@@ -684,6 +684,9 @@ pub fn gen_c10(rng: &mut Rng, tier: Tier) -> MsgScn {
         }
         // JSON-envelope variants
         c.escapes = rng.chance(1, 4);
+        if rng.chance(1, 4) {
+            c.member_order = Some(rng.next_u64());
+        }
         if rng.chance(1, 8) {
             c.extra_raw = Some(rng.pick(&["1e999", "-1e999", "\"\\ud83d\"", "\"\\udc00x\"", "123456789012345678901234567890", "[[[[[[[[[[[[[[[[[[[[[[[[[[[[[[[[[[[[[[[[[[[[[[[[[[[[[[[[[[[[[[[[[[[[[[[[[[[[[[[[[[[[[[[[[[[[[[[[[[[[[[[[[[[[[[[[[[[[[[[[[[[[[[[[[[[[[[[[[[[[[[[[[[1]]]]]]]]]]]]]]]]]]]]]]]]]]]]]]]]]]]]]]]]]]]]]]]]]]]]]]]]]]]]]]]]]]]]]]]]]]]]]]]]]]]]]]]]]]]]]]]]]]]]]]]]]]]]]]]]]]]]]]]]]]]]]]]]]]]]]]]]]]]]]]]]]]", "{\"a\":{\"a\":1,\"a\":2}}", "0.000000000000000000000000000000000000000000000000000000000000000000000000000000000000000000000000000000000000000000000000000000000000000001e-400"]).to_string());
         }
